@@ -79,10 +79,13 @@ def render_sheet(sheet):
     lines = []
     if sheet.get('charset'):
         lines.append(f'@charset {_q(sheet["charset"])};')
-    lines += [render_import(i) for i in sheet.get('imports', [])]
+    c = ['/*c*/'] if sheet.get('comments') else []
+    for i in sheet.get('imports', []):
+        lines += c + [render_import(i)]
     # @namespace must precede every other rule: the generator only builds sheets that respect this
-    lines += [render_rule(r) for r in sheet.get('rules', [])]
-    return '\n'.join(lines)
+    for r in sheet.get('rules', []):
+        lines += c + [render_rule(r)]
+    return '\n'.join(lines + c)
 
 
 # ----------------------------------------------------------------------------------------
